@@ -37,8 +37,9 @@ type verifTableData struct {
 	ents []*kv.Entry
 }
 type verifBuilderData struct {
-	b    *tableBuilder
-	ents []*kv.Entry
+	b       *tableBuilder
+	ents    []*kv.Entry
+	pending int64 // size of the block that is still open (counted when the next entry closes it)
 }
 
 var (
@@ -68,15 +69,18 @@ func verifOpenGate() {
 // verifBuilderAdd stands in for tableBuilder.add (reached through AddKey,
 // AddKeyWithLen, AddStaleKey, AddStaleEntryWithLen).
 func verifBuilderAdd(tb *tableBuilder, e *kv.Entry, valueLen uint32, isStale bool) {
-	verifBuilderAddKey(tb, e)
+	d := verifBuilderAddKey(tb, e)
 	tb.keyHashes = append(tb.keyHashes, 0)
-	tb.estimateSz += int64(len(e.Key) + len(e.Value) + 16)
+	// as the real builder with one entry per block (native twin: BlockSize 1): the
+	// size estimate grows when an entry closes the previous block
+	tb.estimateSz += d.pending
+	d.pending = int64(len(e.Key) + len(e.Value) + 16)
 	if isStale {
 		tb.staleDataSize += len(e.Key) + int(valueLen) + 8
 	}
 }
 
-func verifBuilderAddKey(tb *tableBuilder, e *kv.Entry) {
+func verifBuilderAddKey(tb *tableBuilder, e *kv.Entry) *verifBuilderData {
 	var d *verifBuilderData
 	for _, x := range verifBuilders {
 		if x.b == tb {
@@ -94,6 +98,7 @@ func verifBuilderAddKey(tb *tableBuilder, e *kv.Entry) {
 	if c.Version > tb.maxVersion {
 		tb.maxVersion = c.Version
 	}
+	return d
 }
 
 func verifOpenTable(lm *levelManager, tableName string, builder *tableBuilder) *table {
@@ -185,6 +190,13 @@ func (i verifTableItem) Entry() *kv.Entry { return i.e }
 func verifTableDelete(t *table) error { return nil }
 func verifSyncDir(fs vfs.FS, dir string) error { return nil }
 
+// verifBlockSize: block size of the native LSM (1 = every entry its own block).
+var verifBlockSize = 4 << 10
+
+// verifCompactFileSz: target size of the tables a compaction writes (1 = a new
+// output table is started at every user key).
+var verifCompactFileSz int64 = 2 << 20
+
 // VerifCompact runs one maintenance step of the real compaction code
 // (levelManager.doCompact: L0 -> ingest buffer of the last level | drain that
 // ingest buffer into the level's main tables | merge the ingest buffer in
@@ -194,7 +206,7 @@ func (v *VerifLSM) VerifCompact(level int, mode compact.IngestMode) bool {
 	n := v.L.option.MaxLevelNum
 	t := compact.Targets{BaseLevel: last, TargetSz: make([]int64, n), FileSz: make([]int64, n)}
 	for i := range t.TargetSz {
-		t.TargetSz[i], t.FileSz[i] = 10<<20, 2<<20
+		t.TargetSz[i], t.FileSz[i] = 10<<20, verifCompactFileSz
 	}
 	verifOpenGate()
 	err := v.L.levels.doCompact(0, compact.Priority{Level: level, Score: 5, Adjusted: 5, Target: t, IngestMode: mode})
@@ -258,7 +270,7 @@ func VerifOpenLSM(engine string) *VerifLSM {
 		MemTableSize:        1 << 20,
 		MemTableEngine:      engine,
 		SSTableMaxSz:        1 << 20,
-		BlockSize:           4 << 10,
+		BlockSize:           verifBlockSize,
 		BloomFalsePositive:  0.01,
 		BaseLevelSize:       10 << 20,
 		LevelSizeMultiplier: 10,
